@@ -489,6 +489,14 @@ Section DirLiveInst.
              (delta psi_grad_full grad_psi P x_in Lf) ltac:(now apply delta_pos) (fun i _ _ G Hs => He i G Hs) Phi0 N HN Hmax (Rle_refl _) fuel Hf).
   Qed.
 
+  Theorem panocD_returns_converged :
+    p_crit P = ProjGradNorm \/ p_crit P = ProjGradNorm2 \/ p_crit P = FPRNorm \/ p_crit P = FPRNorm2 ->
+    forall N fuel : nat, Phi0 - ψinf < INR N * dec psi_grad_full grad_psi P x_in Lf -> (N <= p_max_iter P)%nat -> (N < fuel)%nat ->
+    exists oD, panocD_ fuel = DoneD D oD /\ out_status (od_out D oD) = StConverged /\ (out_iterations (od_out D oD) < N)%nat.
+  Proof.
+    intros Hcrit N fuel HN Hmax Hf. destruct (panocD_live_4 Hcrit N fuel HN Hmax Hf) as (oD & E & [A B _ _]). exists oD. repeat split; assumption.
+  Qed.
+
   (* ---- ApproxKKT, ∇ψ Lipschitz *)
   Variable Lg : R.
   Hypothesis Hlip : forall u d, length u = n -> length d = n ->
@@ -505,6 +513,13 @@ Section DirLiveInst.
              Hpsi Hco Hglen Hqub Hinf Hlb Hub Hne Hxin HLg HL0 HLmax Hqt Hlt Hbeta Hforce nL nT HnL Hfac Hmin Hfuel I0 Iv Hwf HI0
              (delta_kkt psi_grad_full grad_psi P x_in Lf Lg) ltac:(now apply (delta_kkt_pos psi_grad_full grad_psi P x_in Lf Lg)) He
              Phi0 N HN Hmax (Rle_refl _) fuel Hf).
+  Qed.
+
+  Theorem panocD_returns_converged_kkt : p_crit P = ApproxKKT ->
+    forall N fuel : nat, Phi0 - ψinf < INR N * dec_kkt psi_grad_full grad_psi P x_in Lf Lg -> (N <= p_max_iter P)%nat -> (N < fuel)%nat ->
+    exists oD, panocD_ fuel = DoneD D oD /\ out_status (od_out D oD) = StConverged /\ (out_iterations (od_out D oD) < N)%nat.
+  Proof.
+    intros Hcrit N fuel HN Hmax Hf. destruct (panocD_live_kkt Hcrit N fuel HN Hmax Hf) as (oD & E & [A B _ _]). exists oD. repeat split; assumption.
   Qed.
 
   (* ---- end to end on a box-constrained strongly convex QP, by REFINEMENT from QpLive.panoc_qp_converges_near_minimiser:
